@@ -9,8 +9,8 @@ use regex::{Regex, RegexSet};
 use simcore::rand_shim as rand;
 use sqlparser::ast::Statement::{Delete, Insert, Query, StartTransaction, Update};
 use sqlparser::ast::{
-    Assignment, BinaryOperator, Expr, Ident, JoinConstraint, JoinOperator, SetExpr, Statement,
-    TableFactor, TableWithJoins, Value,
+    Assignment, BinaryOperator, Expr, FromTable, Ident, JoinConstraint, JoinOperator, SetExpr,
+    Statement, TableFactor, TableWithJoins, Value,
 };
 use sqlparser::dialect::PostgreSqlDialect;
 use sqlparser::parser::Parser;
@@ -656,6 +656,14 @@ impl QueryRouter {
 
                 // Multi-tables delete are not supported in postgres.
                 assert!(d.tables.is_empty());
+
+                // The table we are deleting from: needed to match an unqualified
+                // sharding key column against the table of the sharding key.
+                match &d.from {
+                    FromTable::WithFromKeyword(tables) | FromTable::WithoutKeyword(tables) => {
+                        Self::process_tables_with_join(tables, &mut exprs, &mut table_names);
+                    }
+                }
 
                 if let Some(using_tbl_with_join) = &d.using {
                     Self::process_tables_with_join(
